@@ -407,8 +407,8 @@ func ruleRetryablePreWire(p *Prog, r *Out) {
 						return true
 					}
 					fn := enclosingFunc(pm, x)
-					r.check(fn == "(*Conn).closeErr" || fn == "retryable", fn+" names ErrConnectionClosed", p.pos(x.Pos()), "only closeErr and retryable name the sentinel",
-						fn+" uses ErrConnectionClosed directly; the sentinel means 'never reached the wire' and its production sites are audited one by one")
+					r.check(fn == "(*Conn).closeErr" || fn == "retryable" || p.isDisclaimedResolver(fn), fn+" names ErrConnectionClosed", p.pos(x.Pos()), "only closeErr, retryable and the resolver of GOAWAY-disclaimed streams name the sentinel",
+						fn+" uses ErrConnectionClosed directly; the sentinel means 'the server cannot have processed this request' and its production sites are audited one by one (before anything is written, or for streams above a received GOAWAY's last-stream-id)")
 				}
 			}
 			return true
@@ -819,4 +819,189 @@ func ruleResolveProtocol(p *Prog, r *Out) {
 		}
 	}
 	r.check(closeIdx >= 0 && closeIdx < takeIdx && closeIdx < drainIdx && drainIdx >= 0, "close before drain", p.pos(wl.Pos()), "Close < takeAllReqs, drain loop", "the write loop drains its queues before closing the connection: a Write that lands in the queue after the drain is never resolved")
+}
+
+// isDisclaimedResolver recognises the one post-wire producer of the retryable
+// sentinel that RFC 7540 s6.8 allows: a function that resolves exactly the
+// requests whose stream id is above its parameter, called only with the
+// last-stream-id of a received GOAWAY.
+func (p *Prog) isDisclaimedResolver(fn string) bool {
+	fd := p.decl(fn)
+	if fd == nil || fd.Type.Params == nil || len(fd.Type.Params.List) != 1 || len(fd.Type.Params.List[0].Names) != 1 {
+		return false
+	}
+	last := fd.Type.Params.List[0].Names[0].Name
+	// ids are collected only under `id > last`
+	guarded, collected := false, ""
+	ast.Inspect(fd.Body, func(n ast.Node) bool {
+		rs, ok := n.(*ast.RangeStmt)
+		if !ok || !strings.HasSuffix(squash(p.text(rs.X)), ".reqQueued") || rs.Key == nil || len(rs.Body.List) != 1 {
+			return true
+		}
+		ifs, ok := rs.Body.List[0].(*ast.IfStmt)
+		if !ok || ifs.Else != nil {
+			return true
+		}
+		c, ok := p.canonCmp(ifs.Cond, nil)
+		if !ok || c.Op != "le" || !c.L.eq(Lin{T: map[string]int64{last: 1, p.text(rs.Key): -1}, C: 1}) {
+			return true
+		}
+		if len(ifs.Body.List) == 1 {
+			if as, ok := ifs.Body.List[0].(*ast.AssignStmt); ok {
+				if cl, ok := as.Rhs[0].(*ast.CallExpr); ok && p.calleeOf(cl) == "builtin.append" && p.text(cl.Args[1]) == p.text(rs.Key) {
+					guarded, collected = true, p.text(as.Lhs[0])
+				}
+			}
+		}
+		return true
+	})
+	if !guarded {
+		return false
+	}
+	// the sentinel is used only to finish the collected ids
+	okUse := false
+	ast.Inspect(fd.Body, func(n ast.Node) bool {
+		rs, ok := n.(*ast.RangeStmt)
+		if !ok || p.text(rs.X) != collected || rs.Value == nil {
+			return true
+		}
+		inspectCalls(rs.Body, func(cl *ast.CallExpr) {
+			if p.calleeOf(cl) == "(*Conn).finish" && len(cl.Args) == 3 && p.text(cl.Args[1]) == p.text(rs.Value) && p.text(cl.Args[2]) == "ErrConnectionClosed" {
+				okUse = true
+			}
+		})
+		return true
+	})
+	if !okUse {
+		return false
+	}
+	// every call passes the GOAWAY frame's last-stream-id, inside the GOAWAY clause
+	calls, good := 0, 0
+	for _, f := range p.Files {
+		pm := p.parentMaps()[f]
+		inspectCalls(f, func(cl *ast.CallExpr) {
+			if p.calleeOf(cl) != fn {
+				return
+			}
+			calls++
+			inGoAway := false
+			for cur := pm[cl]; cur != nil; cur = pm[cur] {
+				if cc, ok := cur.(*ast.CaseClause); ok && len(cc.List) == 1 && p.text(cc.List[0]) == "FrameGoAway" {
+					inGoAway = true
+				}
+			}
+			if inGoAway && len(cl.Args) == 1 && squash(p.text(cl.Args[0])) == "ga.stream" {
+				good++
+			}
+		})
+	}
+	return calls >= 1 && calls == good
+}
+
+func init() {
+	register(&Rule{
+		Name: "client-goaway-drain", Props: []string{"C11", "C12"}, Engine: "AST", Floor: 3,
+		Doc: "after a GOAWAY that names a last stream the client keeps reading until no request at or below that stream is left in its table (the decision looks at the table, not at which stream the current frame belongs to), and the requests above it are resolved at once with the retryable error",
+		Run: ruleClientGoAwayDrain,
+	})
+}
+
+func ruleClientGoAwayDrain(p *Prog, r *Out) {
+	rl := p.decl("(*Conn).readLoop")
+	dp := p.decl("(*Conn).dispatch")
+	if rl == nil || dp == nil {
+		r.undecided("anchors", "?", "readLoop/dispatch no longer resolve")
+		return
+	}
+	r.fn("(*Conn).readLoop", "(*Conn).dispatch", "(*Conn).readNext")
+	// no stop decision on the identity of the frame's stream
+	byFrame := ""
+	for _, fd := range []*ast.FuncDecl{rl, dp} {
+		ast.Inspect(fd.Body, func(n ast.Node) bool {
+			if b, ok := n.(*ast.BinaryExpr); ok && (b.Op == token.EQL || b.Op == token.NEQ) {
+				x, y := squash(p.text(b.X)), squash(p.text(b.Y))
+				if (strings.HasSuffix(x, ".closeRef") && strings.HasSuffix(y, ".Stream()")) || (strings.HasSuffix(y, ".closeRef") && strings.HasSuffix(x, ".Stream()")) {
+					byFrame = p.pos(b.Pos())
+				}
+			}
+			return true
+		})
+	}
+	r.check(byFrame == "", "the read loop does not stop on the identity of a frame's stream", p.pos(dp.Pos()), "no `fr.Stream() == closeRef` test", "after GOAWAY the read loop decides to stop by comparing the current frame's stream with last-stream-id ("+byFrame+"): it leaves at the first frame on that stream, so a response that is HEADERS followed by DATA is cut off after its HEADERS, and requests on lower streams that are still open are abandoned (RFC 7540 s6.8: streams at or below last-stream-id complete normally)")
+	// the loop's stop test consults a table scan
+	var drainFn *ast.FuncDecl
+	ast.Inspect(rl.Body, func(n ast.Node) bool {
+		ifs, ok := n.(*ast.IfStmt)
+		if !ok {
+			return true
+		}
+		brk := false
+		for _, s := range ifs.Body.List {
+			if b, ok := s.(*ast.BranchStmt); ok && b.Tok == token.BREAK {
+				brk = true
+			}
+		}
+		if !brk {
+			return true
+		}
+		inspectCalls(ifs.Cond, func(cl *ast.CallExpr) {
+			if d := p.decl(p.calleeOf(cl)); d != nil && d.Body != nil {
+				scan := false
+				ast.Inspect(d.Body, func(m ast.Node) bool {
+					if rs, ok := m.(*ast.RangeStmt); ok && strings.HasSuffix(squash(p.text(rs.X)), ".reqQueued") {
+						scan = true
+					}
+					return true
+				})
+				if scan {
+					drainFn = d
+				}
+			}
+		})
+		return true
+	})
+	if drainFn == nil {
+		r.bad("read loop leaves when no promised request remains", p.pos(rl.Pos()), "the read loop has no stop test that looks at the table of outstanding requests: after GOAWAY it either never leaves while the server keeps the connection open, or leaves while promised requests are unanswered")
+		return
+	}
+	closing, scanOK := false, false
+	ast.Inspect(drainFn.Body, func(n ast.Node) bool {
+		switch x := n.(type) {
+		case *ast.IfStmt:
+			if squash(p.text(x.Cond)) == "c.state!=connStateClosed" {
+				if res := firstReturn(x.Body); len(res) == 1 && p.text(res[0]) == "false" {
+					closing = true
+				}
+			}
+		case *ast.RangeStmt:
+			if x.Key != nil && len(x.Body.List) == 1 {
+				if ifs, ok := x.Body.List[0].(*ast.IfStmt); ok {
+					if c, ok := p.canonCmp(ifs.Cond, nil); ok && c.Op == "le" && c.L.eq(Lin{T: map[string]int64{p.text(x.Key): 1, "c.closeRef": -1}}) {
+						if res := firstReturn(ifs.Body); len(res) == 1 && p.text(res[0]) == "false" {
+							scanOK = true
+						}
+					}
+				}
+			}
+		}
+		return true
+	})
+	last := retResults(drainFn.Body.List[len(drainFn.Body.List)-1])
+	r.check(closing && scanOK && len(last) == 1 && p.text(last[0]) == "true", "read loop leaves when no promised request remains", p.pos(drainFn.Pos()), "not closing -> false; any id <= closeRef in the table -> false; else true", "the drained test is no longer 'a GOAWAY was received and no request with an id at or below its last-stream-id is outstanding'")
+	// GOAWAY receipt resolves the disclaimed streams
+	rn := p.decl("(*Conn).readNext")
+	resolved := false
+	if rn != nil {
+		ast.Inspect(rn.Body, func(n ast.Node) bool {
+			if cc, ok := n.(*ast.CaseClause); ok && len(cc.List) == 1 && p.text(cc.List[0]) == "FrameGoAway" {
+				inspectCalls(cc, func(cl *ast.CallExpr) {
+					if p.isDisclaimedResolver(p.calleeOf(cl)) {
+						resolved = true
+					}
+				})
+			}
+			return true
+		})
+	}
+	r.check(resolved, "GOAWAY receipt resolves the streams it disclaims", p.pos(dp.Pos()), "failAbove(ga.stream) in the GOAWAY clause", "receiving GOAWAY no longer resolves the requests above last-stream-id: they wait for a response the server has said it will not send")
 }
